@@ -73,9 +73,11 @@ pub fn run(_params: &[i64], ops: &Rows, mon: &mut Mon) -> Rows {
                     want.push(903); cnt_sim += 1;
                     let want_more = cnt_sim != stop;
                     if all != want || rest2 != want_rest2 || (c2 >= 0 && c2 != want_c2) || more != want_more { mon.fail(format!("case{} a callback that answered stop earlier was fed again: the closure received {:?} (expected {:?}), second count {} (expected {}), undelivered items destroyed {:?} (expected {:?}), a further call returned {} (expected {})", k, all, want, c2, want_c2, rest2, want_rest2, more, want_more)); }
-                    cnt = c1; rest = rest1;
-                    got = all[..first_n.min(all.len())].to_vec();
                     drop(store);
+                    let _ = take_drops();
+                    // rows of the model's refeed case: [count 1] ; [count 2] ; everything received ; never offered 1 ; never offered 2 ; [last call]
+                    out.push(vec![c1]); out.push(vec![c2]); out.push(all); out.push(rest1); out.push(rest2); out.push(vec![more as i64]);
+                    continue;
                 }
                 1 => {
                     let mut store: Vec<Tok> = Vec::new();
